@@ -138,7 +138,18 @@ var HangTimeout = 90 * time.Second
 // parks in Read on it or closes it.
 func (w *World) Open(remote net.Addr) (*simnet.Conn, error) {
 	c := simnet.NewConn(w.Clock, remote)
-	w.Conns = append(w.Conns, c)
+	// connections the server has closed are of no further use to Stop; dropping them keeps a world that serves millions
+	// of histories from holding every event log it ever recorded
+	live := w.Conns[:0]
+	for _, o := range w.Conns {
+		if !o.Closed() {
+			live = append(live, o)
+		}
+	}
+	for i := len(live); i < len(w.Conns); i++ {
+		w.Conns[i] = nil
+	}
+	w.Conns = append(live, c)
 	w.L.Push(c)
 	if _, ok := c.WaitIdleTimeout(HangTimeout); !ok {
 		return c, fmt.Errorf("server side did not become idle after accept")
